@@ -1,5 +1,6 @@
 import ParryModel.Proto
 import ParryModel.C12.Model
+import ParryModel.C12.Driver2
 import Std.Data.HashMap
 /-! C12 protocol handlers. -/
 namespace C12
@@ -127,9 +128,15 @@ def hull3Oracle (input : List (V3 Float)) (hv : List (V3 Float)) (tris : List (N
   let hi := P.foldl (fun m p => (⟨max m.x p.x, max m.y p.y, max m.z p.z⟩ : V3 Rat)) (P.headD ⟨0,0,0⟩)
   let diag2 := (hi.sub lo).normSq
   let tol2 : Rat := diag2 / 100000000000000        -- (1e-7 · diag)²
+  -- a sliver triangle (its three vertices collinear within the tolerance 1e-7·diag: height² ≤ tol²) has no plane that is
+  -- determined within that tolerance (a relative perturbation of 1e-16 of its vertices turns its exact normal by 90°);
+  -- it bounds nothing and is left out of the half-space test (the other faces still have to enclose every point)
   let faces := tris.filterMap fun (a, b, c) =>
     match H[a]?, H[b]?, H[c]? with
-    | some pa, some pb, some pc => some (pa, (pb.sub pa).cross (pc.sub pa))
+    | some pa, some pb, some pc =>
+      let n := (pb.sub pa).cross (pc.sub pa)
+      let longest := max ((pb.sub pa).normSq) (max ((pc.sub pb).normSq) ((pa.sub pc).normSq))
+      if n.normSq ≤ tol2 * longest then none else some (pa, n)
     | _, _, _ => none
   let bad := P.filter fun p => faces.any fun (pa, n) =>
     let d := n.dot (p.sub pa)
@@ -139,7 +146,9 @@ def hull3Oracle (input : List (V3 Float)) (hv : List (V3 Float)) (tris : List (N
     let m : Std.HashMap (Int × Nat) Nat := P.foldl (fun m p => let k := ((f p).num, (f p).den); m.insert k (m.getD k 0 + 1)) {}
     m.fold (fun acc _ v => max acc v) 0
   let lattice := max (countMax (·.x)) (max (countMax (·.y)) (countMax (·.z))) ≥ 16
-  let tag := if lattice then "[coplanar-lattice-cloud]" else ""
+  -- the same degeneracy in rotated position: a face plane of the returned mesh carries five or more distinct input points
+  let tag := if lattice then "[coplanar-lattice-cloud]" else
+    if !bad.isEmpty && hasCoplanarSubset P faces then "[coplanar-subset-cloud]" else ""
   match bad with
   | p :: _ => s!"fail input-point-outside-hull{tag} ({p.x},{p.y},{p.z})"
   | [] => "pass"
@@ -186,7 +195,13 @@ def handler (fn : String) : Option Handler :=
       model := fun _ => some "-"
       oracle := fun a o => match run (plist pv2) a with
         | some input => (match o with
-          | "panic" :: _ => "fail panic"
+          | "panic" :: _ =>
+            -- `from_convex_hull` goes through `convex_hull2`, whose `assert!`s fire on fewer than 2 / all-coincident points
+            -- (the known finding of `hull2`); any other panic is a plain failure
+            let P := input.map q2
+            (match P with
+            | a :: rest => if rest.all (fun b => b.x == a.x && b.y == a.y) then "fail panic-on-degenerate-input" else "fail panic"
+            | [] => "fail panic-on-degenerate-input")
           | ["none"] =>
             -- None is legitimate only for degenerate (collinear) input
             let P := input.map q2
@@ -205,9 +220,49 @@ def handler (fn : String) : Option Handler :=
       oracle := fun a o => match run (plist pv3) a with
         | some input => (match o with
           | "panic" :: _ => "fail panic"
-          | "err" :: _ => "skip degenerate-input-reported-as-error"
+          | "err" :: _ =>
+            -- an error is the documented answer for a degenerate cloud only: a clearly full-dimensional one must get its hull
+            if fullDim (input.map q3) then "fail error-for-a-full-dimensional-cloud" else "skip degenerate-input-reported-as-error"
           | _ => match run pmesh3 o with
             | some (hv, tris) => hull3Oracle input hv tris
+            | none => "fail unparsable-output")
+        | none => "skip bad-args" }
+  | "hull3_scale" => some {
+      model := fun _ => some "-"
+      oracle := fun a o => match run (do let k ← pint; let pts ← plist pv3; pure (k, pts)) a with
+        | some (k, _) => (match o with
+          | "panic" :: _ => "fail panic"
+          | _ => scaleOracle k o)
+        | none => "skip bad-args" }
+  | "polyhedron" => some {
+      -- args: the cloud, then (observed from the real code) the hull mesh `from_convex_hull` hands to `from_convex_mesh`
+      model := fun a => run (do
+        let _ ← plist pv3
+        let rest ← get
+        if rest.isEmpty then pure "none" else do
+          let hv ← plist pv3; let tris ← ptris
+          pure (polyModel hv tris)) a
+      oracle := fun a o => match run (plist pv3) a with
+        | some input => (match o with
+          | "panic" :: _ => "fail panic"
+          | ["none"] => if fullDim (input.map q3) then "fail none-for-a-full-dimensional-cloud" else "skip degenerate-input"
+          | _ => match run pdump o with
+            | some d => polyOracle (some (input.map q3)) d
+            | none => "fail unparsable-output")
+        | none => "skip bad-args" }
+  | "polymesh" => some {
+      model := fun a => run (do let pts ← plist pv3; let tris ← ptris; pure (polyModel pts tris)) a
+      oracle := fun a o => match run (do let pts ← plist pv3; let tris ← plist (do let a ← pnat; let b ← pnat; let c ← pnat; pure (a, b, c)); pure (pts, tris)) a with
+        | some (pts, tris) =>
+          let valid := closedManifold pts.length tris
+          (match o with
+          | "panic" :: _ => "fail panic"
+          | ["none"] => if valid then "fail none-for-a-closed-manifold-mesh" else "pass"
+          | _ => if !valid then "fail polyhedron-built-from-a-non-manifold-mesh" else
+            match run pdump o with
+            | some d =>
+              if !(d.pts.size == pts.length && (d.pts.toList.zip pts).all fun (p, p') => eq3 (q3 p) (q3 p')) then "fail points-changed" else
+              polyOracle none d
             | none => "fail unparsable-output")
         | none => "skip bad-args" }
   | _ => none
